@@ -35,6 +35,10 @@ def main():
     for mid in ids:
         meta = json.load(open(os.path.join(sdir, mid, 'meta.json')))
         prop = meta['property']
+        if meta.get('neutralised_by'):
+            # a later repair of /repo made this change harmless (its demo passes on the changed tree): kept for the record
+            print('%-6s %-4s %-18s %s' % (mid, prop, 'NEUTRALISED', 'no longer breaks the property since ' + meta['neutralised_by']))
+            continue
         scratch = tempfile.mkdtemp(prefix='verif-mutant-%s-' % mid)
         try:
             dst = os.path.join(scratch, 'repo')
